@@ -60,7 +60,13 @@ func inPrivateNS(child string, c map[string]interface{}) map[string]interface{} 
 	cmd.Stdin = bytes.NewReader(append(in, '\n'))
 	var out, errb bytes.Buffer
 	cmd.Stdout, cmd.Stderr = &out, &errb
-	cmd.SysProcAttr = &syscall.SysProcAttr{Unshareflags: syscall.CLONE_NEWNS, Setpgid: true}
+	flags := uintptr(syscall.CLONE_NEWNS)
+	if child == "ports-child" {
+		// real sockets on host ports: a network namespace of its own, so that no other process's ports (ephemeral ports of
+		// connections included) get in the way
+		flags |= syscall.CLONE_NEWNET
+	}
+	cmd.SysProcAttr = &syscall.SysProcAttr{Unshareflags: flags, Setpgid: true}
 	if err := cmd.Start(); err != nil {
 		return jmap{"res": "harness-error", "err": err.Error()}
 	}
@@ -325,6 +331,10 @@ func cniRun(c map[string]interface{}) map[string]interface{} {
 			_ = os.Remove(filepath.Join(fdir, "cnt-"+cid+"-DEL"))
 			env := map[string]string{"CNI_COMMAND": Str(rm, "cmd"), "CNI_CONTAINERID": cid, "CNI_NETNS": "/proc/self/ns/net",
 				"CNI_IFNAME": Str(rm, "ifname"), "CNI_PATH": "/nonexistent/cni/bin", "CNI_ARGS": Str(rm, "args")}
+			if gone, _ := rm["netns_gone"].(bool); gone {
+				// the runtime sends a DEL with an empty CNI_NETNS when the sandbox's network namespace is gone already
+				env["CNI_NETNS"] = ""
+			}
 			wg.Add(1)
 			go func(i int) {
 				defer wg.Done()
